@@ -11,6 +11,7 @@ AddressSanitizer without the instrumented allocator.
 from __future__ import annotations
 
 import collections
+import itertools
 import json
 import os
 import shutil
@@ -52,6 +53,7 @@ declarations:
 - decl: void growCstr(char *s +intent(inout))
 - decl: void takeVec(const std::vector<int> &v)
 - decl: void takeVecStr(const std::vector<std::string> &v)
+- decl: void fillVecN(int n, std::vector<int> &v +intent(out))
 - decl: std::vector<int> retVec()
 patterns:
   pool_release: |
@@ -100,6 +102,7 @@ void outCstr(char *s);
 void growCstr(char *s);
 void takeVec(const std::vector<int> &v);
 void takeVecStr(const std::vector<std::string> &v);
+void fillVecN(int n, std::vector<int> &v);
 std::vector<int> retVec();
 #endif
 """
@@ -167,6 +170,7 @@ void outCstr(char *s) { std::strcpy(s, "twelve chars"); }
 void growCstr(char *s) { vt_seen = (long) std::strlen(s); std::strcat(s, "+xy"); }  /* the caller's variable has room for it */
 void takeVec(const std::vector<int> &v) { vt_seen = (long) v.size(); }
 void takeVecStr(const std::vector<std::string> &v) { vt_seen = (long) v.size() * 100 + (long) v[v.size() - 1].size(); }
+void fillVecN(int n, std::vector<int> &v) { v.clear(); for (int i = 1; i <= n; i++) v.push_back(i); }
 std::vector<int> retVec() { std::vector<int> v; v.push_back(4); v.push_back(5); v.push_back(6); return v; }
 static int cmpi(const void *a, const void *b) { return *(const int *) a - *(const int *) b; }
 extern "C" void vt_status_f(const char *op, long val, int a0, int o0, int a1, int o1)
@@ -269,6 +273,12 @@ int main(int argc, char **argv) {
             } else if (op[1] == 'o') {
                 char *buf = (char *) malloc(id ? id : 1); memset(buf, 'z', id);
                 OWN_out_cstr_bufferify(buf, id); for (int k = 0; k < id; k++) val += (buf[k] != ' '); free(buf);
+            } else if (op[1] == 'f') {
+                /* the library produces id values, the caller has room for three (guards on both sides, on the heap) */
+                int *buf = (int *) malloc(5 * sizeof(int)); buf[0] = 7; buf[1] = buf[2] = buf[3] = 0; buf[4] = 7;
+                OWN_SHROUD_array fctx; OWN_fill_vec_n_bufferify(id, &fctx); OWN_ShroudCopyArray(&fctx, buf + 1, 3);
+                val = buf[0] * 10000 + buf[1] * 1000 + buf[2] * 100 + buf[3] * 10 + buf[4]; free(buf);
+                OWN_SHROUD_memory_destructor(&fctx.cxx);
             } else if (op[1] == 'v') {
                 int *buf = (int *) malloc(sizeof(int) * (id ? id : 1)); for (int k = 0; k < id; k++) buf[k] = k;
                 vt_seen = -1; OWN_take_vec_bufferify(buf, id); val = vt_seen; free(buf);
@@ -421,10 +431,12 @@ program drv
         call grow_case(id, val)
       case ('v')
         call vec_case(id)
+      case ('f')
+        call fill_case(id, val)
       case ('w')
         call vecstr_case(id)
       end select
-      if (op(2:2) /= 'm' .and. op(2:2) /= 'o' .and. op(2:2) /= 'g') val = vt_seen
+      if (op(2:2) /= 'm' .and. op(2:2) /= 'o' .and. op(2:2) /= 'g' .and. op(2:2) /= 'f') val = vt_seen
     end select
     call status(trim(op), val)
   end do
@@ -489,6 +501,17 @@ contains
       if (sv(k:k) /= ' ') v = v + 1
     end do
   end subroutine
+  subroutine fill_case(n, val)
+    ! the library produces n values, the caller passes a three-element section with a guard on either side
+    integer, intent(in) :: n
+    integer(C_LONG), intent(out) :: val
+    integer(C_INT), allocatable :: g(:)
+    allocate(g(5))
+    g = [7, 0, 0, 0, 7]
+    call fill_vec_n(int(n, C_INT), g(2:4))
+    val = g(1) * 10000 + g(2) * 1000 + g(3) * 100 + g(4) * 10 + g(5)
+    deallocate(g)
+  end subroutine
   subroutine vec_case(n)
     integer, intent(in) :: n
     integer(C_INT) :: v(n)
@@ -534,7 +557,7 @@ class M(object):
 IDS = {0: 5, 1: 7}
 # stateless calls whose wrappers build temporaries: op -> value the driver must report
 TEMP_VALS = {"Tn:1": 101, "Tn:4": 201, "Tm:1": 1001, "Tm:3": 3003, "Tm:8": 3006, "To:20": 11, "To:32": 11, "Tg:5": 2005, "Tg:9": 2005,
-             "Tv:0": 0, "Tv:3": 3, "Tw:1": 201, "Tw:4": 201}
+             "Tv:0": 0, "Tv:3": 3, "Tw:1": 201, "Tw:4": 201, "Tf:0": 70007, "Tf:2": 71207, "Tf:3": 71237, "Tf:5": 71237}
 TEMP_OPS = sorted(TEMP_VALS)
 
 
@@ -1019,6 +1042,141 @@ def model_trace(hist):
     return m, lines
 
 
+# ---------------------------------------------------------------- classes that share a bare name
+SAME_YAML = """\
+library: same
+cxx_header: same.hpp
+options:
+  wrap_python: false
+  wrap_lua: false
+declarations:
+- decl: namespace alpha
+  declarations:
+  - decl: class Item
+    declarations:
+    - decl: Item()
+    - decl: ~Item()
+    - decl: int weight()
+- decl: namespace beta
+  declarations:
+  - decl: class Item
+    declarations:
+    - decl: Item()
+    - decl: ~Item()
+    - decl: int weight()
+- decl: template<typename T> class Box
+  cxx_template:
+  - instantiation: <int>
+  - instantiation: <double>
+  declarations:
+  - decl: Box()
+  - decl: ~Box()
+  - decl: int bytes()
+- decl: int live(int which)
+"""
+SAME_HPP = r"""
+#ifndef SAME_HPP
+#define SAME_HPP
+extern int vt_live[4];
+namespace alpha { class Item { public: Item() { vt_live[0]++; } ~Item() { vt_live[0]--; } int weight() { return 1; } }; }
+namespace beta { class Item { char pad[64]; public: Item() { vt_live[1]++; } ~Item() { vt_live[1]--; } int weight() { return 2; } }; }
+template<typename T> struct vt_slot { enum { value = 2 }; };
+template<> struct vt_slot<double> { enum { value = 3 }; };
+template<typename T> class Box { T m; public: Box() : m(0) { vt_live[vt_slot<T>::value]++; } ~Box() { vt_live[vt_slot<T>::value]--; } int bytes() { return (int) sizeof(T); } };
+int live(int which);
+#endif
+"""
+SAME_CPP = r"""
+#include "same.hpp"
+int vt_live[4];
+int live(int which) { return vt_live[which]; }
+"""
+SAME_DRIVER = r"""
+#include <stdio.h>
+#include <string.h>
+@INCLUDES@
+static SAM_alpha_Item a; static SAM_beta_Item b; static SAM_Box_int bi; static SAM_Box_double bd;
+static void show(const char *op) { printf("ST %s %d %d %d %d\n", op, SAM_live(0), SAM_live(1), SAM_live(2), SAM_live(3)); }
+int main(int argc, char **argv) {
+  show("init");
+  for (int i = 1; i < argc; i++) {
+    const char *op = argv[i]; int k = op[1] - '0';
+    if (op[0] == 'c') { if (k == 0) SAM_alpha_Item_ctor(&a); else if (k == 1) SAM_beta_Item_ctor(&b); else if (k == 2) SAM_Box_int_ctor(&bi); else SAM_Box_double_ctor(&bd); }
+    else if (op[0] == 'r') { void *h = k == 0 ? (void *) &a : k == 1 ? (void *) &b : k == 2 ? (void *) &bi : (void *) &bd; SAM_SHROUD_memory_destructor((SAM_SHROUD_capsule_data *) h); }
+    else if (op[0] == 'd') { if (k == 0) SAM_alpha_Item_dtor(&a); else if (k == 1) SAM_beta_Item_dtor(&b); else if (k == 2) SAM_Box_int_dtor(&bi); else SAM_Box_double_dtor(&bd); }
+    else if (op[0] == 'w') { int w = k == 0 ? SAM_alpha_Item_weight(&a) : k == 1 ? SAM_beta_Item_weight(&b) : k == 2 ? SAM_Box_int_bytes(&bi) : SAM_Box_double_bytes(&bd); printf("W %d\n", w); }
+    show(op);
+  }
+  return 0;
+}
+"""
+
+
+def run_same(args):
+    exe, seq = args
+    env = dict(os.environ, ASAN_OPTIONS="detect_leaks=1:exitcode=99:abort_on_error=0")
+    rc, so, se = build.sh([exe] + list(seq), os.path.dirname(exe), env=env, timeout=60)
+    return rc, [l for l in so.split("\n") if l.startswith(("ST ", "W "))], (se or "")[:600]
+
+
+def same_name_classes(ctx, quick):
+    """Two classes called Item in different namespaces and two instantiations of one class template: each object is
+    released by its own class's destructor, whichever way and in whichever order the handles are released."""
+    wd = ctx.subdir("same")
+    r, tree = gen.gen_tree(wd, yaml.safe_load(SAME_YAML), keep=True)
+    if r.status != "ok":
+        ctx.violation("same-name generate", "shroud failed on the same-name class library: %s" % r.msg, {"kind": "same"})
+        return
+    out = os.path.join(wd, "out")
+    open(os.path.join(out, "same.hpp"), "w").write(SAME_HPP)
+    open(os.path.join(out, "subject.cpp"), "w").write(SAME_CPP)
+    incs = "\n".join('#include "%s"' % h for h in sorted(os.listdir(out)) if h.startswith("wrap") and h.endswith(".h"))
+    open(os.path.join(out, "driver.c"), "w").write(SAME_DRIVER.replace("@INCLUDES@", incs))
+    try:
+        csrc = sorted(f for f in os.listdir(out) if f.endswith((".c", ".cpp")))
+        objs = build.compile_c_family(out, csrc, "cxx", san=True)
+        build.link(out, objs, "same", fortran=False, cxx=True, san=True)
+    except build.BuildError as e:
+        ctx.violation("same-name build", "the same-name class library does not build: %s" % str(e)[:600], {"kind": "same"})
+        return
+    exe = os.path.join(out, "same")
+    seqs = []
+    weight = [1, 2, 4, 8]
+    for order in itertools.permutations(range(4)):
+        for how in itertools.product("rd", repeat=4):
+            if quick and (order[0] > order[-1]) and how.count("r") not in (0, 4):
+                continue
+            seqs.append(["c%d" % k for k in range(4)] + ["w%d" % k for k in range(4)] + ["%s%d" % (how[k], k) for k in order])
+    # and with a subset of the classes alive
+    for present in itertools.product([0, 1], repeat=4):
+        ks = [k for k in range(4) if present[k]]
+        if ks and len(ks) < 4:
+            seqs.append(["c%d" % k for k in ks] + ["r%d" % k for k in reversed(ks)])
+    res = isolate.pmap(run_same, [(exe, s_) for s_ in seqs], ctx.workers, chunksize=8)
+    n = 0
+    for seq, (rc, lines, se) in zip(seqs, res):
+        live = [0, 0, 0, 0]
+        exp = ["ST init 0 0 0 0"]
+        for op in seq:
+            k = int(op[1])
+            if op[0] == "c":
+                live[k] += 1
+            elif op[0] in "rd":
+                live[k] -= 1
+            elif op[0] == "w":
+                exp.append("W %d" % weight[k])
+            exp.append("ST %s %d %d %d %d" % ((op,) + tuple(live)))
+        n += len(seq)
+        if rc != 0 or lines != exp:
+            first = next((i for i, (g, e) in enumerate(zip(lines + ["(missing)"] * len(exp), exp)) if g != e), len(exp))
+            ctx.violation("same-name classes %s" % (seq[first - 1] if 0 < first <= len(seq) else "exit"),
+                          "classes sharing a bare name, history %s: %s (live objects of alpha::Item, beta::Item, Box<int>, Box<double>)%s" % (
+                              " ".join(seq), "step %d gives %r, expected %r" % (first, (lines + ["(missing)"] * len(exp))[first] if first < len(exp) else "-", exp[first] if first < len(exp) else "-"),
+                              (" exit %d: %s" % (rc, se[:300])) if rc else ""), {"kind": "same", "history": seq})
+    ctx.count(states=len(seqs), transitions=n, validated=n)
+    ctx.part("same_name_classes", histories=len(seqs), steps=n)
+
+
 def run(ctx):
     quick = ctx.tier == "quick"
     depth = 4 if quick else 5
@@ -1144,6 +1302,7 @@ def run(ctx):
             ctx.violation("fortran asan %s" % key_for(hist, se), "Fortran history %s under AddressSanitizer: %s" % (" ".join(hist), se[:700].replace("\n", " | ")),
                           {"kind": "fortran-asan", "history": list(hist)})
     python_front_end(ctx, quick)
+    same_name_classes(ctx, quick)
     ctx.part("fortran", depth=fdepth, model_states=len(fseen), transitions_executed=len(fh), asan_histories=len(fah))
     ctx.count(states=len(fseen), transitions=len(fh) + len(fah), validated=len(fh) + len(fah))
     ctx.count(states=len(seen), transitions=len(allh) + len(ah), validated=len(allh) + len(ah))
